@@ -30,6 +30,19 @@ CLAIMED["C18"] = (
     "Trusted: Lean kernel (+propext, Classical.choice, Quot.sound); the hand-written model (a polling cycle is atomic; one loop thread only); sources that override start/stop themselves (kafka, tcp, http, websocket) are not covered; virtual loop relies on CPython 3.12 asyncio internals.",
 )
 
+CLAIMED["C09"] = (
+    "DESIGN.md section 5, C09",
+    "Lean 4 theorems over a hand-written state-machine model of FromKafkaBatched (poll loop, completion/commit, crash+restart; invariants over every action sequence) + deterministic differential correspondence of the real source against an in-memory fake confluent_kafka on a virtual-time loop, with a crash after every event in the thorough tier",
+    "Proof: for every production history, partition count, max_batch_size, completion order and crash point: ranges are bounded by the high watermark and the batch size (ranges_bounded), ordered and disjoint, contiguous unless clamped by retention (ranges_contiguous, ranges_gap_only_by_truncation), start at the committed offset or the reset position (starts_at_committed, reset_position_*), the committed offset only ever becomes hi+1 of a completed batch (commit_only_on_completion, commit_after_processing), and with in-order completion every unprocessed offset is re-delivered after a crash at any instant (at_least_once, redelivery, crash_redelivers_unprocessed); the in-order hypothesis is shown necessary by a proved counter-example. One recorded finding (latest + nothing committed) is excluded by an explicit hypothesis and proved as a witness.",
+    "Trusted: Lean kernel (+propext, Classical.choice, Quot.sound); the hand-written model; the fake confluent_kafka client (the real librdkafka client and a real broker are not exercised); 'completely processed' is as strong as C04 for the pipeline downstream of the source.",
+)
+CLAIMED["C20"] = (
+    "DESIGN.md section 5, C20",
+    "Lean 4 theorems (per-kind simulation: erasing the future wrapper maps every Dask step to the local step) over a hand-written model of DaskStream's re-implemented nodes, scatter and gather + sampled differential correspondence of real pipelines on an in-process dask cluster against the same pipeline run locally",
+    "Proof: step_simulation / segment_erasure (the Dask segment erases to the local one for every segment, input and completion-time assignment), locked_gather_in_arrival_order (the repaired gather emits in arrival order for every schedule), dask_equiv_local_locked_partial (sink sequence equals the local one; partial: the acknowledgement order of concurrent client.scatter calls is a hypothesis), counters balanced as locally and never zero while an element waits in scatter/gather. The pre-fix gather is kept as a model with the reordering proved on witnesses.",
+    "Trusted: Lean kernel (+propext, Classical.choice, Quot.sound); the hand-written model; the Dask scheduler's choices are sampled on a real in-process cluster (real-time loop; a timeout is a harness error, never a violation), not modelled.",
+)
+
 NOT_YET = {}
 
 
